@@ -20,8 +20,13 @@ import collections, hashlib, json, os, re
 
 LEVEL = "proof"
 SCRATCH = ("fresh", "single", "initial")
-# share of generated cases that each known finding excuses on the unchanged tree (measured, see the report), and a floor
-# (two runs of 20 000 cases, seeds 11 and 12: cases excused per finding, first matching finding in file order)
+# Share of generated cases that each known finding excuses (first matching finding in file order), and a floor.
+# The shares are MEASURED per source state of the solver: `C07_MEASURE=20000 VERIF_SEED=11 bin/check C07` adds one
+# measurement to checks/c07_kf_shares.json under the hash of src/PIP_*; a finding that excused no case in >= 20 000
+# measured cases (a repaired class) gets budget 0.  The constants below are the fall-back for an unmeasured source state
+# (unchanged tree, two runs of 20 000 cases).
+KF_SHARES_FILE = os.path.join(os.path.dirname(os.path.abspath(__file__)), "c07_kf_shares.json")
+KF_FLOOR = {"KF-C07-10": 4, "KF-C07-11": 4}
 KF_BUDGET = {"KF-C07-1": (0.0044, 6), "KF-C07-2": (0.0016, 6), "KF-C07-3": (0.0059, 6), "KF-C07-4": (0.0031, 6),
              "KF-C07-5": (0.025, 6), "KF-C07-6": (0.0046, 6), "KF-C07-7": (0.0037, 6), "KF-C07-8": (0.001, 6),
              "KF-C07-9": (0.0005, 6), "KF-C07-10": (0.0003, 4), "KF-C07-11": (0.0001, 4)}
@@ -249,16 +254,46 @@ def classify(rec, v):
     return site, tags, f
 
 
+def pip_source_hash():
+    from .common import REPO, file_hash
+    src = os.path.join(REPO, "src")
+    files = sorted(f for f in os.listdir(src) if f.startswith("PIP_") and (f.endswith(".cc") or f.endswith(".hh")))
+    return file_hash(*[os.path.join(src, f) for f in files])
+
+
+def load_shares():
+    try:
+        return json.load(open(KF_SHARES_FILE))
+    except (OSError, ValueError):
+        return {}
+
+
+def budget_of(kid, ngen, entry):
+    """cases finding `kid` may excuse in a run of `ngen` generated cases"""
+    floor = KF_FLOOR.get(kid, 6)
+    if entry is not None and entry.get("cases", 0) >= 20000:
+        n = entry.get("counts", {}).get(kid, 0)
+        if n == 0:
+            return 0, 0.0
+        share = n / float(entry["cases"])
+    else:
+        share = KF_BUDGET.get(kid, (0.01, 6))[0]
+    return max(floor, int(5 * share * ngen)), share
+
+
 def run(ctx):
     ctx.ensure_ppl()
     broken = ctx.prove(["PPLV.Props.C07"])
     if ctx.tier == "thorough":
         broken += ctx.leanchecker(["PPLV.Props.C07"])
     drv = ctx.ensure_pplv("pplv_pip")
-    h = ctx.compile_harness("c07_pip.cc")
+    from .common import REPO
+    # one binary per tree under test, so that runs against different trees do not evict each other's harness
+    h = ctx.compile_harness("c07_pip.cc", out_name="c07_pip_" + hashlib.sha256(REPO.encode()).hexdigest()[:6])
     wd = ctx.workdir()
     quick = ctx.tier == "quick"
-    ncases = int(os.environ.get("C07_CASES", "600" if quick else "12000"))
+    measure = int(os.environ.get("C07_MEASURE", "0") or 0)
+    ncases = measure or int(os.environ.get("C07_CASES", "600" if quick else "12000"))
     box = 6 if quick else 14
     seed, first, last = ctx.seed, 0, ncases
     fixed = True
@@ -449,14 +484,30 @@ def run(ctx):
     # hide behind them.  Budget per finding = max(floor, factor x the share of cases measured on the unchanged tree
     # over 40 000 cases); exceeding it is reported as a violation of its own (not excusable).
     ngen = max(1, len(set(r.case for r in recs if r.case >= 0)))
+    src_hash = pip_source_hash()
+    shares = load_shares()
+    if measure:
+        ent = shares.setdefault(src_hash, {"cases": 0, "seeds": [], "counts": {}})
+        if seed not in ent["seeds"]:
+            ent["seeds"].append(seed)
+            ent["cases"] += ngen
+            for kid, cases in kf_cases.items():
+                ent["counts"][kid] = ent["counts"].get(kid, 0) + len([c for c in cases if c >= 0])
+            with open(KF_SHARES_FILE, "w") as f:
+                json.dump(shares, f, indent=1, sort_keys=True)
+        print("measured: source state %s, %d cases at seed %d: %s" % (src_hash, ngen, seed, {k: len(v) for k, v in sorted(kf_cases.items())}))
+    entry = shares.get(src_hash)
+    budgets = {}
     for kid, cases in sorted(kf_cases.items()):
-        share, floor = KF_BUDGET.get(kid, (0.01, 5))
-        budget = max(floor, int(5 * share * ngen))
-        if len(cases) > budget:
+        budget, share = budget_of(kid, ngen, entry)
+        budgets[kid] = budget
+        if len(cases) > budget and not measure:
             c0 = sorted(cases)[0]
-            ctx.violation("known finding %s matches %d of %d cases in this run; the unchanged tree produces about %.2f %% "
+            ctx.violation("known finding %s matches %d of %d cases in this run; this source state produces about %.2f %% "
                           "(budget %d): the class of failures has grown" % (kid, len(cases), ngen, 100 * share, budget),
                           replay_of(c0, {"finding": kid, "cases": sorted(cases)[:50]}), found_input=True, record=None)
+    ctx.cov["known_finding_budgets"] = {"source_state": src_hash, "measured_cases": (entry or {}).get("cases", 0),
+                                        "budgets_of_findings_met": budgets}
     ctx.cov["known_finding_cases"] = {k: len(v) for k, v in kf_cases.items()}
 
     for b in broken:
